@@ -21,7 +21,7 @@ Definition finish {A} (r : res A * pst) : res outp :=
     ROk (mkOut (match ob with ObR x => x | _ => [] end) (llog l) (wrappedErr s))
   | (RPanic v, _) => RPanic v
   | (RFuel, _) => RFuel
-  | (RMiss, _) => RMiss
+  | (RMiss w, _) => RMiss w
   end.
 
 Definition sprint (fuel : nat) (env : env) (a : list value) : res outp :=
@@ -46,7 +46,7 @@ Definition lwrite (l : lbuf) (m : mode) (o : op) : lbuf :=
   fst (l_step (fst (l_step l (OMode m))) o).
 
 Definition res_bind {A B} (r : res A) (f : A -> res B) : res B :=
-  match r with ROk a => f a | RPanic v => RPanic v | RFuel => RFuel | RMiss => RMiss end.
+  match r with ROk a => f a | RPanic v => RPanic v | RFuel => RFuel | RMiss w => RMiss w end.
 
 (* one SafeWriter / io.Writer call on a StringBuilder *)
 Definition builder_step (fuel : nat) (env : env) (l : lbuf) (a : action) : res lbuf :=
